@@ -376,8 +376,11 @@ func genC12(t *rapid.T) C12Case {
 	// a light-weight shadow of the protocol state to bias towards legal calls
 	var stack []string
 	pendName := false
+	// per-case bias: mostly-misused sequences exercise refusal and stickiness,
+	// mostly / entirely legal ones reach the stream oracle (3)
+	bias := gen.Pick(t, []int{75, 75, 93, 100})
 	for i := 0; i < n; i++ {
-		legal := gen.Chance(t, 75)
+		legal := gen.Chance(t, bias)
 		inStruct := len(stack) > 0 && stack[len(stack)-1] == "struct"
 		var call CallJ
 		k := gen.Intn(t, 20)
@@ -402,6 +405,9 @@ func genC12(t *rapid.T) C12Case {
 		case k < 17:
 			if legal && len(stack) > 0 {
 				call = CallJ{Op: "end:" + stack[len(stack)-1]}
+			} else if legal {
+				v := genScalar(t)
+				call = CallJ{Op: "value", Val: &v, Pick: gen.Intn(t, 6)}
 			} else {
 				call = CallJ{Op: "end:" + gen.Pick(t, []string{"list", "sexp", "struct"})}
 			}
@@ -472,7 +478,7 @@ func c12Alphabet() []CallJ {
 }
 
 func TestC12(t *testing.T) {
-	p := Prop[C12Case]{ID: "C12", Sub: "sequences", Gen: genC12, Run: runC12, Quick: 8000, Thorough: 30000}
+	p := Prop[C12Case]{ID: "C12", Sub: "sequences", Gen: genC12, Run: runC12, Quick: 8000, Thorough: 200000}
 	alpha := c12Alphabet()
 	maxLen := Scale(5, 6)
 	EnumerateSharded(t, p, "short-sequences", func(shard, nshards int, yield func(C12Case) bool) {
